@@ -44,7 +44,9 @@ claimed = {
         "Since the first version: lookback and includes are proved COMPLETE as well (every pair that satisfies the DeRemer-Pennello condition is produced), the direct-read sets are "
         "exact with one array per entry, BuildTrans ties the transition list to the automaton, the generated Action() is verified under this property. " + STAGES,
    note=TB + "NOT proved deductively (bounded stand-in only: 9 fixed grammars + 400 pseudo-random grammars quick / 20000 thorough, <= 5 nonterminals, <= 6 terminals, "
-        "<= 9 rules): Digraph/Traverse, the reads relation, CalcLookAheadSet, that GenTable drops no candidate of a conflict-free cell, the worklist of the LR(0) construction. "
+        "<= 9 rules): Digraph/Traverse, CalcLookAheadSet's use of it, the worklist of the LR(0) construction as a whole. Proved since: the reads relation is exact; NOTHING IS DROPPED between "
+        "the transition list and the table - every transition of a state is handed to the conflict resolution, every shift symbol and every reduce lookahead gets a cell there, and "
+        "every cell whose surviving action is not the %nonassoc ERROR action is written into the row. "
         "Literature theorems used, not mechanised: DeRemer-Pennello, and that LALR(1) tables accept exactly L(G).",
    design="§5 C02", technique="contract-based deductive verification of the pipeline stages + bounded run-time contract evaluation end to end"),
  "C12": dict(
@@ -61,9 +63,10 @@ claimed = {
    text=DRV + "C17: fmt.Printf is modelled by a ghost output log. TraceShift is proved to log exactly (name of the pushed symbol, pushed state); PushStateSym logs exactly "
         "one such line per push, for the entry it pushes; in Parser the reduce line is logged after the reduction and before the goto push and carries the rule actually "
         "reduced, the state actually pushed and the name of the lookahead that triggered it. Generator side: buildTranslate emits symbol id -> RemoveTempName(name) and "
-        "case i -> text of visitor rule i-1; RemoveTempName is proved to show a character literal as 'c' and every other name unchanged.",
+        "case i -> text of visitor rule i-1 - left-hand side AND the display names of all right-hand-side symbols in order; RemoveTempName is proved to show a character literal "
+        "as 'c' and every other name unchanged; grammar rule i is paired with visitor rule i-1 (BuildLALR1: no rule dropped or reordered).",
    note=DRVNOTE + " TraceReduce and TraceTranslate are the generated switches (trusted contracts tied to the grammar by the emits obligations). That the printed run is a legal "
-        "run of the automaton follows from C01's step contracts. The right-hand-side text of a rule in the trace is covered for the left part only.",
+        "run of the automaton follows from C01's step contracts. ",
    design="§5 C17", technique="contract-based deductive verification with a ghost output log + emits contracts"),
  "C09": dict(
    text="Deductive proof of the leaf operations the canonical-collection construction is built from: InsertItem keeps the representation invariant of an item "
@@ -72,7 +75,9 @@ claimed = {
         "getItemCloure returns (r,0) for exactly the rules r whose left-hand side is the symbol after the dot (both inclusions); ComputeIClosure returns the LEAST closed "
         "superset of the items it is given (closed: every needed (r,0) is present; justified: every added item is needed by an item of the set; the given items are kept; "
         "representation invariant kept) and leaves it sorted by (rule, dot), which is what makes the position-wise comparison of CheckIsExist a set comparison.",
-   note=TB + "Assumed: sort.SliceStable yields a permutation ordered by its less function. NOT proved: the worklist orchestration ComputeGotoItemNoneRec / ComputeAllGoto "
+   note=TB + "Assumed: sort.SliceStable yields a permutation ordered by its less function. Local steps of the worklist are proved too: state 0 is the closure of the start item and the only state when the worklist starts (BuildLALR1); in "
+        "ComputeGotoItemNoneRec an item with X after the dot contributes exactly its advanced item (same rule, dot+1) to the target on X, a new goto entry is created on exactly that X, "
+        "and every pending target is resolved to the index of a state with exactly its item list (an existing one, else itself appended). NOT proved as a whole: the worklist orchestration ComputeGotoItemNoneRec / ComputeAllGoto "
         "(state reachability, completeness of transitions, state 0). The bounded LR(1)-merge stand-in of C03 fails when the LR(0) cores are not canonical, but it is "
         "registered under C03, not here.",
    design="§5 C09", technique="contract-based deductive verification of the leaf functions (govc VC generator + SMT)"),
